@@ -457,18 +457,23 @@ func (j *c07Judge) related(snap []c07G) []c07G {
 }
 
 // waitRecorded polls goroutine snapshots of a directed scenario.
-//   1  the cancel is known to be recorded inside the call: cancel's body records the error first and then drains the
-//      source, where it must block because the generator is held; so a goroutine inside mr.drain below the mapper's
-//      cancel (or below the caller's context branch) proves the recording;
-//   2  the whole call is at rest (every goroutine of it blocked on a channel / lock, in two stop-the-world snapshots
-//      50 ms apart) without that;  for "workers-held" this is the state waited for;
-//   0  the call returned first;  -1  none of these within 20 s (the call is still making progress / machine stalled).
+//
+//	1  the cancel is known to be recorded inside the call: cancel's body records the error first and then drains the
+//	   source, where it must block because the generator is held; so a goroutine inside mr.drain below the mapper's
+//	   cancel (or below the caller's context branch) proves the recording;
+//	2  the whole call is at rest (every goroutine of it blocked on a channel / lock, in two stop-the-world snapshots
+//	   50 ms apart) without that;  for "workers-held" this is the state waited for;
+//	0  the call returned first;  -1  none of these within 20 s (the call is still making progress / machine stalled).
 func (j *c07Judge) waitRecorded(order string, callDone chan struct{}) int {
 	mark := "(*c07Run).mapItem"
 	if order == "ctx-before-write" {
 		mark = "(*c07Run).call("
 	}
 	deadline := time.Now().Add(20 * time.Second)
+	rest := 50 * time.Millisecond
+	if order == "workers-held" { // the state waited for, not an accusation: a second snapshot shortly after suffices
+		rest = 5 * time.Millisecond
+	}
 	var restSince time.Time
 	for i := 0; ; i++ {
 		select {
@@ -491,7 +496,7 @@ func (j *c07Judge) waitRecorded(order string, callDone chan struct{}) int {
 		if len(gs) > 0 && allBlocked(gs) {
 			if restSince.IsZero() {
 				restSince = time.Now()
-			} else if time.Since(restSince) >= 50*time.Millisecond {
+			} else if time.Since(restSince) >= rest {
 				select {
 				case <-callDone:
 					return 0
@@ -978,7 +983,9 @@ func TestVerifC07(t *testing.T) {
 			v.Steps++
 			if f != nil {
 				v.OK, v.Step, v.Key, v.Msg, v.Infra = false, k, f.key, f.msg, f.infra
-				failed[sig]++
+				if strings.HasPrefix(f.key, "C07:hang:") || strings.HasPrefix(f.key, "C07:leak:") {
+					failed[sig]++ // only failures that leave goroutines behind count towards the limit
+				}
 				break
 			}
 		}
